@@ -213,3 +213,18 @@ Theorem C13_source_impl_bounds :
   Forall (fun tr => bounds_of (tr ++ " for GenericArray<T,N>") = Some ["N:ArrayLength"; ("T:" ++ tr)%string])
          ["Default"; "Clone"; "PartialEq"; "Eq"; "PartialOrd"; "Ord"; "Debug"; "Hash"].
 Proof. exact tie_structural_bounds. Qed.
+
+(* ---- T1: the one-expression bodies this property's code consists of besides the modelled core, as they stand
+        in the source now (coq/gen/GenSigs.v gen_thin_bodies) ---- *)
+From Coq Require Import String.
+From GA Require Import SigTie.
+From GAGen Require Import GenSigs.
+Local Open Scope string_scope.
+
+Theorem C13_source_thin_bodies :
+  thin_of "PartialEq for GenericArray<T,N>" "eq" = Some "* * self == * * other" /\
+  thin_of "PartialOrd for GenericArray<T,N>" "partial_cmp" = Some "PartialOrd :: partial_cmp (self . as_slice () , other . as_slice ())" /\
+  thin_of "Ord for GenericArray<T,N>" "cmp" = Some "Ord :: cmp (self . as_slice () , other . as_slice ())" /\
+  thin_of "Debug for GenericArray<T,N>" "fmt" = Some "self . as_slice () . fmt (fmt)" /\
+  thin_of "Hash for GenericArray<T,N>" "hash" = Some "Hash :: hash (self . as_slice () , state)".
+Proof. repeat split. Qed.
